@@ -240,7 +240,8 @@ pub fn huffman(args: &[String], out: &mut Out) {
         out.count("distinct_cases");
         out.count("evaluations");
         if ci % 400 == 9 { out.sample(c.clone()); }
-        let ws: Vec<u32> = c["ws"].as_array().unwrap().iter().map(|x| x.as_u64().unwrap() as u32).collect();
+        let ws: Vec<u32> = c["ws"].as_array().unwrap().iter().map(|x| (x[0].as_u64().unwrap() * 65536 + x[1].as_u64().unwrap()) as u32).collect();
+        let want_cost: u64 = c["cost"][0].as_u64().unwrap() * 65536 + c["cost"][1].as_u64().unwrap();
         let res = guard(|| {
             let mut bad: Vec<(String, String)> = vec![];
             let mut r = rng(seed, 0x15a0_0000 + ci as u64);
@@ -258,7 +259,7 @@ pub fn huffman(args: &[String], out: &mut Out) {
                     }
                     for i in 0..ws.len() { for j in 0..ws.len() { if ws[i] > ws[j] && depths[i] > depths[j] { bad.push(("C15/huffman/heavier-leaf-deeper".into(), format!("weights {:?} depths {:?}", ws, depths))); } } }
                     let cost: u64 = ws.iter().zip(depths.iter()).map(|(w, d)| *w as u64 * *d as u64).sum();
-                    if cost != c["cost"].as_u64().unwrap() { bad.push(("C15/huffman/not-optimal".into(), format!("weights {:?} depths {:?} cost {} optimal {}", ws, depths, cost, c["cost"]))); }
+                    if cost != want_cost { bad.push(("C15/huffman/not-optimal".into(), format!("weights {:?} depths {:?} cost {} optimal {}", ws, depths, cost, want_cost))); }
                     let maxd = *depths.iter().max().unwrap();
                     let kraft: u64 = depths.iter().map(|d| 1u64 << (maxd - d)).sum();
                     if ws.len() > 1 && kraft != 1u64 << maxd { bad.push(("C15/huffman/not-a-full-tree".into(), format!("{:?}", depths))); }
